@@ -529,6 +529,14 @@ def _verify_lemma(self, name, L):
     self.fn = _F(); self.contract = L; self.vcs = []; self.named_facts = {}
     if L.get('assumed'):      # an assumption, listed as such in evidence; nothing is proved here
         return [], dict(function='lemma:' + name, file='contracts', lines=[0, 0], sha256='', stmts_executed=0, paths=0, vcs=0, assumed=True)
+    if 'raw' in L:
+        # a lemma stated directly over z3 terms (set-level statements over an uninterpreted sort of valuations, which the
+        # contract language has no syntax for): L['raw'](z3) -> [(name, [hypotheses], goal)]
+        for nm, hyps, goal in L['raw'](z3):
+            self.vcs.append(VC('cover/' + nm, list(hyps), z3.BoolVal(False), 'cover', 0, self.fn.key, expect='sat'))
+            self.vcs.append(VC('goal/' + nm, list(hyps), goal, 'lemma', 0, self.fn.key))
+        for v in self.vcs: v.quant = True
+        return self.vcs, dict(function='lemma:' + name, file='contracts', lines=[0, 0], sha256='', stmts_executed=0, paths=1, vcs=len(self.vcs))
     self.defs = dict(self.global_defs); self.defs.update(L.get('defs', {}))
     p = Path()
     for n, k in L.get('vars', {}).items(): p.env[n] = self.make_value(k, n, p)
